@@ -3,6 +3,7 @@
 //! real plonky2 code and replay specification-generated scenarios into it.
 #![allow(clippy::needless_range_loop, clippy::too_many_arguments, clippy::type_complexity)]
 pub mod cfgs;
+pub mod oracle;
 pub mod prog;
 pub mod refarith;
 pub mod util;
